@@ -204,4 +204,79 @@ example : ((Holder.new (some (load false nvB))).after ([none] ++ [some (load tru
     some (load true nvA) :=
   (holder_aligned true nvA nv_nodup nv_pos (by simp [nvA]) _ [none] []).1
 
+/-- **program_binner_of_observation** (the command-line program as the holder, `taurex/taurex.py:main`): whenever the
+    program binds its output to the observation — `taurex_spectrum = self` with whatever `[Binning]` section, or an
+    observation file with no `[Binning]` section / `bin_type = observed` — and gets as far as writing the output, the binner
+    it holds then is the binner created from the observation it holds then; with `self` that observation is the one built
+    from the instrument result (never the native binner or the `[Binning]` grid chosen before the instrument ran). -/
+theorem program_binner_of_observation (b : BinDecl) (o : ObsDecl ℝ) (inst : Option (List (ORow ℝ))) (p : Program ℝ)
+    (h : Program.run b o inst = some p)
+    (hbound : o = ObsDecl.self ∨
+      ((∃ ob, o = ObsDecl.given ob) ∧ (b = BinDecl.absent ∨ b = BinDecl.observed))) :
+    ∃ ob, p.observed = some ob ∧ p.binner = ProgBinner.ofObs ob.createBinner ∧
+      (∀ ob', o = ObsDecl.given ob' → ob = ob') ∧
+      (o = ObsDecl.self → ∃ rows, inst = some rows ∧ ob = load true (rows.map fromTaurex)) := by
+  rcases hbound with rfl | ⟨⟨ob, rfl⟩, rfl | rfl⟩
+  · cases b <;> cases inst <;> simp [Program.run, Program.choose] at h
+    all_goals
+      subst h
+      refine ⟨_, rfl, rfl, ?_, ?_⟩
+      · intro _ h; cases h
+      · intro _; exact ⟨_, rfl, rfl⟩
+  · simp [Program.run, Program.choose] at h
+    subst h
+    exact ⟨ob, rfl, rfl, by intro _ h; cases h; rfl, by intro h; cases h⟩
+  · simp [Program.run, Program.choose] at h
+    subst h
+    exact ⟨ob, rfl, rfl, by intro _ h; cases h; rfl, by intro h; cases h⟩
+
+/-- non-vacuity: `self` on a declared `[Binning]` grid with an instrument result: the program ends up with the binner of
+    the observation made from the instrument rows -/
+example : ∃ p, Program.run BinDecl.manual (ObsDecl.self : ObsDecl ℝ) (some nvA) = some p ∧
+    p.binner = ProgBinner.ofObs (load true (nvA.map fromTaurex)).createBinner :=
+  ⟨_, rfl, rfl⟩
+
+/-- **program_aligned**: `taurex_spectrum = self` with an instrument result `(wn, spectrum, noise, wn width)` of distinct
+    positive wavenumbers, whatever the `[Binning]` section (`bin_type = observed` stops the program): the program holds the
+    observation built from those rows, and the binned forward model it writes is, element by element, the overlap mean over
+    the bin (centre, width) of that observation's row `i`. -/
+theorem program_aligned (b : BinDecl) (hb : b ≠ BinDecl.observed) (rows : List (ORow ℝ))
+    (hd : (rows.map ORow.wl).Nodup) (hpos : ∀ r ∈ rows, 0 < r.wl) (hlen : 1 ≤ rows.length) (native : List (Row ℝ)) :
+    ∃ p, Program.run b ObsDecl.self (some rows) = some p ∧
+      p.observed = some (load true (rows.map fromTaurex)) ∧
+      p.binModel native =
+        some ((List.zipWith (fun c w => ({ c := c, w := w } : TBin ℝ)) (load true (rows.map fromTaurex)).wavenumberGrid
+          (load true (rows.map fromTaurex)).binWidths).map
+            (fun t => fluxBinVal Row.s (nativeBins false native) t.lo t.hi)) := by
+  have hd' : ((rows.map fromTaurex).map ORow.wl).Nodup := by
+    rw [List.map_map]
+    have : (rows.map (ORow.wl ∘ fromTaurex)) = (rows.map ORow.wl).map (fun x => 10000 / x) := by
+      rw [List.map_map]; rfl
+    rw [this]
+    refine List.Nodup.map_on ?_ hd
+    intro x hx y hy hxy
+    obtain ⟨r, hr, rfl⟩ := List.mem_map.1 hx
+    obtain ⟨r', hr', rfl⟩ := List.mem_map.1 hy
+    have h1 := ne_of_gt (hpos r hr)
+    have h2 := ne_of_gt (hpos r' hr')
+    field_simp at hxy
+    linarith
+  have hpos' : ∀ r ∈ rows.map fromTaurex, 0 < r.wl := by
+    intro r hr
+    obtain ⟨r0, hr0, rfl⟩ := List.mem_map.1 hr
+    unfold fromTaurex
+    simp only
+    exact div_pos (by norm_num) (hpos r0 hr0)
+  have hal := binner_aligned true (rows.map fromTaurex) hd' hpos' (by simpa using hlen) native
+  refine ⟨{ observed := some (load true (rows.map fromTaurex)),
+            binner := ProgBinner.ofObs (load true (rows.map fromTaurex)).createBinner }, ?_, rfl, ?_⟩
+  · cases b <;> simp [Program.run, Program.choose] at hb ⊢
+  · simp only [Program.binModel]
+    exact congrArg some hal.2.2
+
+example : ∃ p, Program.run BinDecl.absent (ObsDecl.self : ObsDecl ℝ) (some nvA) = some p ∧
+    p.observed = some (load true (nvA.map fromTaurex)) := by
+  obtain ⟨p, h1, h2, _⟩ := program_aligned BinDecl.absent (by decide) nvA nv_nodup nv_pos (by simp [nvA]) []
+  exact ⟨p, h1, h2⟩
+
 end Taurex.C17
